@@ -21,8 +21,11 @@ CHECKS = {
         "TLC explores every RNG outcome of every generated program (all attempts up to maxIter) and checks DrawnOnce, ChainRule, "
         "VerdictExact, IterExact, ActivateOnce; the law over (scene, iterations, exhaustion) derived from the spec's denotational "
         "table must equal, as exact rationals, the law obtained by running the real Scenario.generate once per RNG branch.",
-        "Finite-discrete fragment only; scripted random module (random/randint/choices); the Scenic-text/JSON printer pair is trusted; "
-        "programs are an exhaustive two-draw core plus seeded random programs, not all programs.",
+        "Finite-discrete fragment only (scalar operators and lifted calls, Uniform over tuples / lists indexed by constant, negative "
+        "and random indices, star-unpacked calls, coordinates of random vectors, globalParameters feeding later draws and read by "
+        "requirements, tuple- and list-valued properties, two objects with ego rebound); scripted random module "
+        "(random/randint/choices); the Scenic-text/JSON printer pair is trusted; programs are an exhaustive two-draw core, an ego "
+        "core, a container / parameter core (a sixth of it per quick run) plus seeded random programs, not all programs.",
         "3/C01",
     ),
     "C02": (
@@ -81,7 +84,7 @@ CHECKS = {
         "a behaviour of Lifecycle.tla (ideal constants); TLC also shows the ideal model satisfies Quiescent/SceneUntouched/"
         "RevertOnStop and that each named deviation violates one of them.",
         "One program template (Main > Child > Inner, both children overriding the same property, Child cut short while Inner "
-        "runs, a behaviour assigning the property before it is overridden) in two variants; model-import faults and Simulation.destroy faults are not injected; internal run "
+        "runs, a behaviour assigning the property before it is overridden, a top-level `terminate after` no single run reaches) in two variants; model-import faults and Simulation.destroy faults are not injected; internal run "
         "flags are diagnostic only; follow-up operations (simulate the same scene, generate and simulate, recompile, simulate with "
         "the top-level guard false) are compared with a process that simulated nothing before; five named deviations of "
         "Lifecycle.tla (ledger, start flag, cleanup order, run-time module globals, recorder buffer), all repaired or seeded; "
@@ -105,7 +108,8 @@ CHECKS = {
         "every value of the integer-field and exponent bytes for the domain programs) give a scene or SerializationError, foreign "
         "readers refuse, data encoded under A decodes under B iff A = B as valuations, decoded scenes equal the originals in every "
         "parameter and object property, replays reproduce the run and report a divergence iff |actual - expected| > tolerance in "
-        "either direction, whatever the magnitude of the recorded value.",
+        "either direction, whatever the magnitude of the recorded value; every agreeing replay is encoded and replayed a second "
+        "time and must reproduce itself without drawing anything new.",
         "Integer, float and Vector primitives only (no orientations, mutation, str / bytes / pickled or user codecs); representative "
         "flips per byte outside the sweep programs (truncation exhaustive per encoding); boundary core + seeded random programs of "
         "the finite-discrete fragment; harness-written deterministic simulator for replays; decoding in another process not "
@@ -371,7 +375,8 @@ CHECKS = {
         "NothingBeforeEffect (and DoomMonotone, HorizonStable, TrueIsAssured, Dualities on a lemma batch); the real `require` at "
         "top level, in a run-time sub-scenario's setup block, and executed in the compose block of the top-level scenario / of a "
         "sub-scenario after k = 0..2 waits must be accepted iff Sat on its window, rejected early only where Doomed, at once for "
-        "`always` of a false non-temporal condition; the tree built from minimal and fully parenthesised text must be the formula.",
+        "`always` of a false non-temporal condition; the same statement executed twice in one compose block (steps 0 and 1) must be "
+        "accepted iff Sat holds for the trace and for its suffix; the tree built from minimal and fully parenthesised text must be the formula.",
         "Two atoms, traces <= 4 (compose placements: windows <= 3), depth <= 3 (depth 3 sampled); atoms are pure table look-ups, "
         "DummySimulator; compose placements run one (k, ending) combination per (formula, trace), not the full product; a "
         "`require` executed in a behaviour or monitor and soft temporal requirements are not exercised; Doomed looks depth+1 "
@@ -393,7 +398,8 @@ CHECKS = {
         "until over scenarios, their monitors/records/terminate statements, objects created by sub-scenario setup blocks and "
         "`terminate` by their agents, the order of application of the chosen actions); not modelled: override, temporal "
         "requirements inside scenarios (C11), sensors, recorders; conditions are table look-ups; the case->Scenic printer is "
-        "trusted; exhaustive duration / nested / dynamic-object cores + seeded random programs.",
+        "trusted; exhaustive duration / nested / dynamic-object cores, an idle core (steps in which no agent has a behaviour: the "
+        "action dict is empty and executeActions still runs) + seeded random programs.",
         "3/C12",
     ),
     "C13": (
